@@ -328,6 +328,22 @@ theorem flushSealed_steps {t t' : TreeState K} {wm : Nat} {cuts : List (Nat × N
       · cases h
       · cases h; exact .one (.install _ _ _ (Nat.le_refl _))
 
+/-- the commit of a concurrent flush is the identity (result discarded) or ONE `install` step -/
+theorem flushCommit_steps {t t' : TreeState K} {ids : List Nat} {wm : Nat} {cuts : List (Nat × Nat)}
+    (h : t.flushCommit ids wm cuts = some t') : Steps wm t t' := by
+  unfold TreeState.flushCommit at h
+  split at h
+  · cases h
+  · next sv _ =>
+    split at h
+    · cases h
+    · split at h
+      · cases h; exact .refl _
+      · simp only at h
+        split at h
+        · cases h
+        · cases h; exact .one (.install _ _ _ (Nat.le_refl _))
+
 theorem applyOp_steps {t t' : TreeState K} {op : Op K} (h : t.applyOp op = some t') (hop : op.isReopen = false) :
     Steps op.watermark t t' := by
   cases op with
@@ -342,6 +358,7 @@ theorem applyOp_steps {t t' : TreeState K} {op : Op K} (h : t.applyOp op = some 
     split at h
     · next hf => exact .step (.rotate _ m hf) (flushSealed_steps h)
     · cases h
+  | flushCommit ids wm cuts => exact flushCommit_steps h
   | merge ids dest wm f cuts =>
     simp only [TreeState.applyOp, TreeState.mergeCommit] at h
     split at h
